@@ -182,7 +182,7 @@ def cmd_check(args):
         exit_code = 1
     if infra and exit_code == 0:
         for m in infra[:5]:
-            print("INFRA: " + m[:3000])
+            print("INFRA: " + m[:1200])
         exit_code = 2
     wall = round(time.time() - t0, 2)
     ev = {
